@@ -360,7 +360,10 @@ func evalC12(c *engine.Case) engine.Verdict {
 				return "redefine-panic"
 			}
 			if rerr != nil {
-				return "redefine-error"
+				// Whether planning succeeds can itself depend on an equal-cost
+				// tie (a plan needing one name under two types is refused), so
+				// an error is an outcome a sequential execution can return too.
+				return "redefined"
 			}
 			// Which inputs planning picks depends on equal-cost ties, so the
 			// shape of rf (and hence the outcome of calling it without
